@@ -50,7 +50,14 @@ def check_valid(data, codec, blocked, desc):
         return 'valid-file-reported-invalid', f'{desc}: reported invalid ({info.get("reason")!r})'
     want_enc = 'latin1' if codecs_.family(codec) == 'ascii' else 'cp037'
     if info.get('encoding') != want_enc:
-        return 'encoding-family', f'{desc}: encoding reported {info.get("encoding")!r}, expected {want_enc!r}'
+        # the statement asks for the matching *family*: any codec name of the right family is accepted
+        try:
+            import codecs
+            fam = codecs_.family(codecs.lookup(info.get('encoding')).name)
+        except (LookupError, TypeError):
+            fam = None
+        if fam != codecs_.family(codec):
+            return 'encoding-family', f'{desc}: encoding reported {info.get("encoding")!r}, expected {want_enc!r} (or another {codecs_.family(codec)}-family codec)'
     if blocked:
         if info.get('isBlocked') is not True:
             return 'blocked-file-reported-unblocked', f'{desc} ({len(data)} bytes = {len(data) // 1014} blocks): isBlocked == {info.get("isBlocked")!r}'
